@@ -517,6 +517,11 @@ def run(ctx):
         if rp is not None:
             ctx.coverage.setdefault("trusted_base", []).append("harness/overlay/server/zz_verif_c02_test.go: fan-out driver of the C02 check (channel-enabled topics)")
             ctx.finish()
+    if ok_r and ok_m and ctx.proof_ok() and (rp is None or rp.get("part") == "queries"):
+        c01ims.run_queries(ctx)
+        if rp is not None:
+            ctx.coverage.setdefault("trusted_base", []).append("harness/overlay/server/zz_verif_c01q_test.go: query driver on the fan-out topics of the C02 check")
+            ctx.finish()
     ctx.violations = [v for v in ctx.violations if v["key"] != "proof-broken"]   # re-raised by run_stateful
     ctx.coq_props = lambda extra_files=(): proof
     ctx.build_runner = lambda: (ok_r, out_r)
